@@ -402,7 +402,15 @@ func runAdapter(c acase) (o aobs) {
 		if c.RPC == "Update" {
 			call = inst.update
 		}
-		v, err := call(ctx)
+		var v string
+		var err error
+		returned, pmsg := callBoundedFrom(base, func() { v, err = call(ctx) })
+		if pmsg != "" {
+			return aobs{Verdict: "panic:" + strings.ReplaceAll(strings.TrimPrefix(pmsg, "panic: "), " ", "_")}
+		}
+		if !returned {
+			return aobs{Verdict: "stalled:call-does-not-return"}
+		}
 		if err != nil {
 			return aobs{Verdict: "err:" + errClassCode(err)}
 		}
@@ -491,16 +499,37 @@ drain2:
 		return aobs{Verdict: "stalled:change-not-delivered"}
 	}
 	pcancel()
-	select {
-	case <-returned:
-	case <-time.After(adapterWait):
+	if !await(base, func() bool {
+		select {
+		case <-returned:
+			return true
+		default:
+			return false
+		}
+	}) {
 		return aobs{Verdict: "stalled:does-not-end-on-cancel"}
 	}
 	waitQuietAll(base)
 	return aobs{Verdict: "lives"}
 }
 
+// executePanics: does group.Execute panic on this member pattern under this strategy, with members that
+// answer at once?  The probe is a bounded call (an Execute that never returns is not a panic: "" - the case
+// itself then shows the hang) and its answer is kept per (strategy, pattern): it is deterministic.
+var executeProbes = map[string]string{}
+
 func executePanics(strat string, bad []bool) string {
+	key := strat + "/"
+	for _, b := range bad {
+		if b {
+			key += "x"
+		} else {
+			key += "o"
+		}
+	}
+	if msg, ok := executeProbes[key]; ok {
+		return msg
+	}
 	members := make([]group.Member, len(bad))
 	for i, b := range bad {
 		b := b
@@ -511,11 +540,10 @@ func executePanics(strat string, bad []bool) string {
 			return &traits.OnOff{}, nil
 		}
 	}
-	panicked, msg := lib.Catch(func() { _, _ = group.Execute(context.Background(), strategyConst[strat], members) })
-	if panicked {
-		return msg
-	}
-	return ""
+	_, msg := callBounded(func() { _, _ = group.Execute(context.Background(), strategyConst[strat], members) })
+	msg = strings.TrimPrefix(msg, "panic: ")
+	executeProbes[key] = msg
+	return msg
 }
 
 // expectedValue: reduction sanity for unary RPCs ("" = not checked).
@@ -605,7 +633,7 @@ func adapterMonitor(mon *lib.Monitor, c acase, o aobs) {
 	case strings.HasPrefix(o.Verdict, "panic"):
 		mon.Violate(sig+"panic", "the Group call panicked", c, "no panic", o.Verdict)
 	case strings.HasPrefix(o.Verdict, "stalled"):
-		mon.Violate(sig+"stalled", "the subscription neither delivered nor ended", c, want, o.Verdict)
+		mon.Violate(sig+"stalled", "the Group call did not return / the subscription neither delivered nor ended", c, want, o.Verdict)
 	case want != "" && o.Verdict != want:
 		class := "outcome"
 		if o.Verdict == wrong {
@@ -649,16 +677,16 @@ func runAdapters(f lib.Flags, res *lib.Result, drv *lib.Driver) {
 	} else {
 		tie.Fail(fmt.Errorf("no driver"))
 	}
-	stalled := 0
+	stalled := map[string]int{}
 	for i, c := range cases {
 		n, fl := c.n(), c.fails()
 		if oracleVerdict(c.RPC, c.governing(), n, fl) == "" {
 			continue // order-dependent (unary Race, mixed members)
 		}
-		if stalled >= 2 && c.RPC == "Pull" {
-			// every stalled subscription costs a full wait per execution and leaves its goroutines behind: after two
-			// of them (the run has failed on them anyway) the remaining Pull cases are skipped
-			mon.Count("skipped-after-2-stalled-subscriptions")
+		if stalled[c.RPC] >= 2 {
+			// every stalled call / subscription leaves its goroutines behind: after two of one RPC kind (the run
+			// has failed on them anyway) the remaining cases of that kind are skipped
+			mon.Count("skipped-after-2-stalled-" + c.RPC)
 			continue
 		}
 		// self-confirming: a disagreement or violation is only reported if the same case, re-executed in a
@@ -693,7 +721,7 @@ func runAdapters(f lib.Flags, res *lib.Result, drv *lib.Driver) {
 			tie.Record(c.key(), x != "" && w != x, c, c.modelVerdict(answers[i]), o.Verdict)
 		}
 		if strings.HasPrefix(o.Verdict, "stalled") {
-			stalled++
+			stalled[c.RPC]++
 		}
 		tie.Count(c.Trait + "/" + c.RPC)
 		tie.Count("verdict:" + o.Verdict)
